@@ -44,7 +44,7 @@ def run_ops(case: Dict[str, Any]) -> Dict[str, Any]:
             return h3.geo_to_h3(base[0] + rnd.uniform(-0.002, 0.002), base[1] + rnd.uniform(-0.002, 0.002), 15)
         return h3.geo_to_h3(base[0] + rnd.uniform(-0.05, 0.05), base[1] + rnd.uniform(-0.05, 0.05), 15)
 
-    for trial in range(case["trials"]):
+    def run_trial():
         sim = mock_sim(h3_search_res=rnd.choice([6, 7, 9, 10, 12]))
         ids = {"v": set(), "r": set(), "s": set(), "b": set()}
         history = []
@@ -157,6 +157,19 @@ def run_ops(case: Dict[str, Any]) -> Dict[str, Any]:
                 if set(getattr(sim, kk)) != ids[x]:
                     violate("entity-set-differs", f"after {desc}: {kk} = {sorted(getattr(sim, kk))} expected {sorted(ids[x])}", history=history[-6:])
                     ids[x] = set(getattr(sim, kk))
+
+    import os
+    import traceback
+
+    for trial in range(case["trials"]):
+        try:
+            run_trial()
+        except Exception as e:  # an operation under test raised: that sequence did not complete
+            frames = traceback.extract_tb(e.__traceback__)
+            where = next((f"{os.path.basename(f.filename)}:{f.name}" for f in reversed(frames) if "/nrel/hive/" in f.filename), None)
+            if where is None:
+                raise
+            violate(f"exception:{type(e).__name__}@{where}", f"{type(e).__name__}: {e}", traceback=traceback.format_exc()[-1500:])
     return {"id": case["id"], "violations": viol, "violation_counts": {f"{p}|{m}": n for (p, m), n in vcount.items()}, "counters": dict(cnt), "summary": {"ops_seed": case["seed"], "trials": case["trials"], "ops": case["ops"]}}
 
 
